@@ -49,7 +49,7 @@ pub fn run_meta<T: Model>(ctx: &mut Ctx) {
 }
 
 fn values<T: Model>(ctx: &mut Ctx) -> Vec<T> {
-    let n = if ctx.thorough { 200 } else { 14 };
+    let n = if ctx.thorough { 60 } else { 14 };
     let mut vs = Vec::new();
     for i in 0..n {
         let size = if i < 4 { i } else { 1 + ctx.rng.below(4) };
@@ -58,11 +58,69 @@ fn values<T: Model>(ctx: &mut Ctx) -> Vec<T> {
     vs
 }
 
+/// reduced mutation set for very long encodings: lengths off by a few bytes, the first offset words
+pub fn big_mutations(e: &[u8]) -> Vec<Vec<u8>> {
+    let n = e.len();
+    let mut out = Vec::new();
+    for k in [1usize, 2, 3, 5, 7] {
+        if n > k {
+            out.push(e[..n - k].to_vec());
+        }
+    }
+    for x in [vec![0u8], vec![1, 2], vec![0, 0, 0]] {
+        let mut v = e.to_vec();
+        v.extend(x);
+        out.push(v);
+    }
+    for w in 0..3usize {
+        if 4 * w + 4 <= n {
+            let orig = u32::from_le_bytes([e[4 * w], e[4 * w + 1], e[4 * w + 2], e[4 * w + 3]]);
+            for c in [orig.wrapping_add(1), orig.wrapping_sub(1), orig ^ 0x0001_0000, orig ^ 0x0100_0000, n as u32] {
+                let mut v = e.to_vec();
+                v[4 * w..4 * w + 4].copy_from_slice(&c.to_le_bytes());
+                out.push(v);
+            }
+        }
+    }
+    if n > 70000 {
+        let mut v = e.to_vec();
+        v[n - 1] ^= 0x80;
+        out.push(v);
+    }
+    out
+}
+
+fn big_values_for<T: Model>(ctx: &mut Ctx) -> Vec<T> {
+    let mut b = T::big_values(&mut ctx.rng);
+    if !ctx.thorough {
+        b.truncate(1);
+    }
+    b
+}
+
 pub fn run_enc<T: Model>(ctx: &mut Ctx) {
     let d = T::desc();
     let name = T::rust_name();
     let mut seen = HashSet::new();
-    for v in values::<T>(ctx) {
+    let mut all_values = values::<T>(ctx);
+    let n_small = all_values.len();
+    all_values.extend(big_values_for::<T>(ctx));
+    for (vi, v) in all_values.into_iter().enumerate() {
+        if vi >= n_small && !T::big_model_ok() {
+            // large value of a type the model cannot evaluate quickly: implementation-side oracles only
+            if let Ok(bytes) = catch_unwind(AssertUnwindSafe(|| v.as_ssz_bytes())) {
+                let tag = format!("{} bytes", bytes.len());
+                ctx.out.r("C07", "len", v.ssz_bytes_len() == bytes.len(), &["bytes_len", "big", &d, &tag, &name]);
+                if T::roundtrip() {
+                    let back = catch_unwind(AssertUnwindSafe(|| T::from_ssz_bytes(&bytes)));
+                    ctx.out.r("C01", "enc", matches!(&back, Ok(Ok(w)) if *w == v), &["roundtrip", "big", &d, &tag, &name]);
+                }
+                let mut buf = vec![0x5a, 0xa5];
+                v.ssz_append(&mut buf);
+                ctx.out.r("C10", "entry", buf[..2] == [0x5a, 0xa5] && buf[2..] == bytes[..], &["append_prefix", "big", &d, &tag, &name]);
+            }
+            continue;
+        }
         let val = v.to_val();
         if !seen.insert(val.clone()) {
             continue;
@@ -294,6 +352,16 @@ pub fn run_dec<T: Model>(ctx: &mut Ctx) {
             }
         }
     }
+    let mut big_inputs: Vec<Vec<u8>> = Vec::new();
+    for v in big_values_for::<T>(ctx) {
+        if let Ok(e) = catch_unwind(AssertUnwindSafe(|| v.as_ssz_bytes())) {
+            big_inputs.extend(big_mutations(&e));
+            big_inputs.push(e);
+        }
+    }
+    if T::big_model_ok() {
+        inputs.append(&mut big_inputs);
+    }
     inputs.extend(short_strings(ctx.thorough));
     let fl = <T as Decode>::ssz_fixed_len();
     let nrand = if ctx.thorough { 400 } else { 60 };
@@ -322,6 +390,12 @@ pub fn run_dec<T: Model>(ctx: &mut Ctx) {
         }
         dec_case::<T>(ctx, &b);
     }
+    // long inputs of types the model cannot evaluate quickly: implementation-side oracles only
+    ctx.out.capture_m = true;
+    for b in big_inputs {
+        dec_case::<T>(ctx, &b);
+    }
+    ctx.out.capture_m = false;
 }
 
 /// one decode case: correspondence line plus every implementation-side oracle that applies
